@@ -42,8 +42,10 @@ type stepRes struct {
 		JSON    string `json:"json"`
 		JSONErr string `json:"jsonerr"`
 	} `json:"dump"`
-	Alloc uint64 `json:"alloc"`
-	Ns    int64  `json:"ns"`
+	Alloc uint64         `json:"alloc"`
+	Ns    int64          `json:"ns"`
+	Skip  string         `json:"skip"`
+	IsSet map[string]any `json:"isset"`
 	Fn    map[string]struct {
 		Panic    string `json:"panic"`
 		Err      string `json:"err"`
